@@ -47,6 +47,20 @@ theorem ent_ret {n r : Nat} (hn : n < 2^62) (hr : r < 4) : retOf (ent n r) = r :
   rw [this, Nat.and_two_pow_sub_one_eq_mod]
   omega
 
+theorem ent_ret' (n r : Nat) (hr : r < 4) : retOf (ent n r) = r := by
+  unfold retOf ent
+  rw [UInt64.toNat_and, UInt64.toNat_or, UInt64.toNat_shiftLeft]
+  have h2 : (UInt64.ofNat r).toNat = r := by rw [UInt64.toNat_ofNat']; exact Nat.mod_eq_of_lt (by omega)
+  have h3 : (UInt64.ofNat cretAddressShift).toNat % 64 = 2 := by decide
+  have h4 : (3 : UInt64).toNat = 2^2 - 1 := by decide
+  rw [h2, h3, h4, Nat.and_two_pow_sub_one_eq_mod, Nat.shiftLeft_eq]
+  generalize (UInt64.ofNat n).toNat = k
+  have h5 : (k * 2^2 % 2^64) % 2^2 = 0 := by omega
+  have : (k * 2 ^ 2 % 2 ^ 64 ||| r) % 2 ^ 2 = r := by
+    rw [Nat.or_mod_two_pow, h5, Nat.zero_or]
+    exact Nat.mod_eq_of_lt hr
+  exact this
+
 /-- the state `scopeEnd` returns to -/
 def retSt (x : UInt64) : St :=
   if retOf x == cretAddressArrayConst then .arrContinue
@@ -387,7 +401,8 @@ theorem parseString_inv {m' : M} (h : m.parseString cfg buf p pk = some m') :
 theorem value_inv {m' : M} {o : Option St} {r : Nat} (h : m.value cfg buf p pk r = some (m', o)) :
     m'.st = m.st ∧ m.tape.size ≤ m'.tape.size ∧ m'.tape.size ≤ m.tape.size + 2 ∧
     ((o = none ∧ m'.stack = m.stack) ∨
-     ((o = some .objBegin ∨ o = some .arrBegin) ∧ m'.stack = ent m.tape.size r :: m.stack)) := by
+     ((o = some .objBegin ∨ o = some .arrBegin) ∧ m'.stack = ent m.tape.size r :: m.stack ∧
+        m'.tape.size = m.tape.size + 1)) := by
   unfold M.value at h
   simp only at h
   split at h
@@ -416,9 +431,9 @@ theorem value_inv {m' : M} {o : Option St} {r : Nat} (h : m.value cfg buf p pk r
             · cases h; exact ⟨rfl, by simp; omega, by simp, Or.inl ⟨rfl, rfl⟩⟩
             · cases h
           · split at h
-            · cases h; exact ⟨rfl, by simp [M.writeTape, M.push], by simp [M.writeTape, M.push], Or.inr ⟨Or.inl rfl, rfl⟩⟩
+            · cases h; exact ⟨rfl, by simp [M.writeTape, M.push], by simp [M.writeTape, M.push], Or.inr ⟨Or.inl rfl, rfl, by simp [M.writeTape, M.push]⟩⟩
             · split at h
-              · cases h; exact ⟨rfl, by simp [M.writeTape, M.push], by simp [M.writeTape, M.push], Or.inr ⟨Or.inr rfl, rfl⟩⟩
+              · cases h; exact ⟨rfl, by simp [M.writeTape, M.push], by simp [M.writeTape, M.push], Or.inr ⟨Or.inr rfl, rfl, by simp [M.writeTape, M.push]⟩⟩
               · cases h
 
 theorem scopeEnd_inv {m' : M} {c : UInt8} (h : m.scopeEnd c = some m') :
@@ -475,6 +490,7 @@ inductive StepKind (m m' : M) : Prop
   | keep (h1 : InCont m.st) (h2 : InCont m'.st) (hs : m'.stack = m.stack)
   | opn (h1 : InCont m.st) (h2 : InCont m'.st) (r : Nat)
       (hr : r = cretAddressObjectConst ∨ r = cretAddressArrayConst) (hs : m'.stack = ent m.tape.size r :: m.stack)
+      (ht : m'.tape.size = m.tape.size + 1)
   | cls (h1 : InCont m.st) (x : UInt64) (hs : m.stack = x :: m'.stack) (h2 : m'.st = retSt x)
   | root (h1 : m.st = .rootStart) (h2 : InCont m'.st) (hs : m'.stack = ent m.tape.size cretAddressStartConst :: m.stack)
   | sc (h1 : m.st = .startContinue) (h2 : m'.st = .ndSkip) (hs : m'.stack = m.stack)
@@ -501,17 +517,17 @@ theorem step_cases {m' : M} (h : m.step cfg buf p pk = some m') :
       obtain ⟨m1, o⟩ := mo
       rw [hval] at hv
       obtain ⟨h1, h2, h3, h4⟩ := value_inv hval
-      rcases h4 with ⟨rfl, hs⟩ | ⟨ho, hs⟩
+      rcases h4 with ⟨rfl, hs⟩ | ⟨ho, hs, hts⟩
       · simp only [Option.some.injEq] at hv
         subst hv
         exact ⟨h2, by simp only; omega, .keep hic hcs hs⟩
       · rcases ho with rfl | rfl
         · simp only [Option.some.injEq] at hv
           subst hv
-          exact ⟨h2, by simp only; omega, .opn hic (by icd) r hr hs⟩
+          exact ⟨h2, by simp only; omega, .opn hic (by icd) r hr hs hts⟩
         · simp only [Option.some.injEq] at hv
           subst hv
-          exact ⟨h2, by simp only; omega, .opn hic (by icd) r hr hs⟩
+          exact ⟨h2, by simp only; omega, .opn hic (by icd) r hr hs hts⟩
   have key : ∀ (hic : InCont m.st), (m.parseString cfg buf p pk).map ({ · with st := .objKeyColon }) = some m' →
       m.tape.size ≤ m'.tape.size ∧ m'.tape.size ≤ m.tape.size + 3 ∧ StepKind m m' := by
     intro hic hv
